@@ -233,15 +233,35 @@ def handle (cmd : String) (j : J) : Except String J :=
     | "new_translate" => pure (exP sJ (new_translate ng (Dna.ofStr s) (← (← j.get "start").toInt) (← (← j.get "rc").toBool)))
     | "old_sixframes" => pure (exP (fun fs => J.arr (fs.map sJ)) (old_sixframes og s))
     | "new_sixframes" => pure (exP (fun fs => J.arr (fs.map fun x => J.arr [sJ x.1, J.num x.2.1, sJ x.2.2])) (new_sixframes ng (Dna.ofStr s)))
+    | "env" =>
+      -- the UNTRANSLATED environment of old `Sequence.get_translation` (tables / hand-modelled helpers), compared with the runtime objects
+      let ambJ := fun (d : List (Char × List Char)) => J.arr (d.map fun kv => J.arr [sJ [kv.1], sJ kv.2])
+      let pmJ := fun (p : PM) => J.obj [("nchars", J.num p.nchars), ("missing", sJ [p.missing]), ("ambiguities", ambJ p.ambigs)]
+      pure (J.obj [("protein", pmJ (protMoltype "protein".toList)), ("protein_with_stop", pmJ (protMoltype "protein_with_stop".toList)),
+        ("dna_ambiguities", ambJ (oldSeqOf oldDna []).ambigs), ("rna_ambiguities", ambJ (oldSeqOf oldRna []).ambigs),
+        ("rna_to_dna_ambiguities", ambJ (NSeq.toDna (oldSeqOf oldRna [])).ambigs),
+        ("codon_alphabet", J.arr ((OldGC.codonAlphabet og false).map sJ)), ("codon_alphabet_with_stop", J.arr ((OldGC.codonAlphabet og true).map sJ))])
+    | "resolve" => do
+      let mtn ← (← j.get "mt").toStr
+      let q := oldSeqOf (← getMT mtn) []
+      pure (exP (fun l => J.arr (l.map sJ)) (NSeq.resolveAmbiguity q s (OldGC.codonAlphabet og (← (← j.get "include_stop").toBool))))
+    | "what" => do
+      let ms := (← (← j.get "motifs").toList)
+      let ms ← ms.mapM fun r => do pure (← r.toStr).toList
+      pure (sJ (PM.whatAmbiguity (protMoltype s) ms))
     | fn => do
-      let mt ← getMT (← (← j.get "mt").toStr)
-      let q := newSeqOf mt s
+      let mtn ← (← j.get "mt").toStr
+      let mt ← getMT mtn
+      let q := if mtn.startsWith "old" then oldSeqOf mt s else newSeqOf mt s
       let strict := (← (← j.get "strict").toBool)
       match fn with
       | "new_seq_has_terminal_stop" => pure (exP J.bool (new_seq_has_terminal_stop q ng strict))
       | "old_seq_has_terminal_stop" => pure (exP J.bool (old_seq_has_terminal_stop q og strict))
       | "new_seq_trim_stop_codon" => pure (exP (fun r => sJ r.chars) (new_seq_trim_stop_codon q ng strict))
       | "old_seq_trim_stop_codon" => pure (exP (fun r => sJ r.chars) (old_seq_trim_stop_codon q og strict))
+      | "old_seq_get_translation" =>
+        pure (exP sJ (old_seq_get_translation q og (← (← j.get "incomplete_ok").toBool) (← (← j.get "include_stop").toBool)
+          (← (← j.get "trim_stop").toBool)))
       | "new_seq_get_translation" =>
         pure (exP sJ (new_seq_get_translation q ng (← (← j.get "incomplete_ok").toBool) (← (← j.get "include_stop").toBool)
           (← (← j.get "trim_stop").toBool)))
